@@ -19,6 +19,7 @@ import probes
 import c01core
 import c01sweeps
 import c01pattern
+import c01date
 from common import log
 
 PID = "C01"
@@ -211,9 +212,10 @@ def run(chk, rebaseline=False):
         "deviations of the pinned tree, which would make the check raise an alarm on the unchanged tree",
     ]
     chk.prove(["theories/Lang/Properties.vo", "theories/Lang/OpsExec.vo", "theories/Lang/CoreProperties.vo", "theories/Lang/PrattProperties.vo",
-               "theories/Lang/CoreExec.vo", "theories/Lang/ArrayPatternProperties.vo", "theories/Lang/ArrayPatternExec.vo"],
+               "theories/Lang/CoreExec.vo", "theories/Lang/ArrayPatternProperties.vo", "theories/Lang/ArrayPatternExec.vo",
+               "theories/Lang/CivilProperties.vo", "theories/Lang/CivilExec.vo"],
               ["theories/Lang/Properties.v", "theories/Lang/CoreProperties.v", "theories/Lang/PrattProperties.v",
-               "theories/Lang/ArrayPatternProperties.v"], facts=["C01"])
+               "theories/Lang/ArrayPatternProperties.v", "theories/Lang/CivilProperties.v"], facts=["C01"])
     ok, out, chk.th = common.build_harness("debug")
     if not ok:
         chk.proof_breaks.append("harness does not build against /repo: " + out[-800:])
@@ -234,6 +236,13 @@ def run(chk, rebaseline=False):
         return chk.finish()
     if not chk.replay:
         c01pattern.run(chk, chk.th, stats)
+
+    # ---- stream M5: Date's calendar arithmetic: getters and Date.UTC vs Lang/Civil*.v vs node ----
+    if chk.replay and ("time_values" in json.load(open(chk.replay)) or "utc_arguments" in json.load(open(chk.replay))):
+        c01date.run(chk, chk.th, stats)
+        return chk.finish()
+    if not chk.replay:
+        c01date.run(chk, chk.th, stats)
 
     # ---- stream A: operators on primitives: tsrun vs model vs node -----------------
     prims = probes.PRIMS
@@ -421,6 +430,7 @@ def run(chk, rebaseline=False):
         "known_probe_deviations": stats["known_probe_deviations"], "known_program_deviations": stats["known_program_deviations"],
         "generator_features": feats, "disagreements": stats["disagreements"],
         "sweeps": len(c01sweeps.S), "sweep_items": stats.get("sweep_items", 0),
+        "date_cases": stats.get("date_cases", 0),
         "array_pattern_cases": stats.get("pattern_cases", 0), "array_pattern_instructions_compared": stats.get("pattern_instructions", 0),
         "core_programs": stats.get("core_programs", 0), "core_instructions_compared": stats.get("core_instructions", 0),
         "core_value_outcomes": stats.get("core_value", 0), "core_error_outcomes": stats.get("core_error", 0),
